@@ -891,6 +891,30 @@ class CmpVisEdgeRotation
             {
                 return u->rotationLessThan(_lastPt, v);
             }
+            // Order the remaining edges by the ids and then the positions
+            // of their endpoints rather than by their addresses, so that
+            // the search order (and thus which of several equally good
+            // pins is chosen) does not depend on where they were allocated.
+            std::pair<VertID, VertID> uIds = u->ids();
+            std::pair<VertID, VertID> vIds = v->ids();
+            if (uIds.first != vIds.first)
+            {
+                return uIds.first < vIds.first;
+            }
+            if (uIds.second != vIds.second)
+            {
+                return uIds.second < vIds.second;
+            }
+            std::pair<Point, Point> uPts = u->points();
+            std::pair<Point, Point> vPts = v->points();
+            if (uPts.first != vPts.first)
+            {
+                return uPts.first < vPts.first;
+            }
+            if (uPts.second != vPts.second)
+            {
+                return uPts.second < vPts.second;
+            }
             return u < v;
         }
     private:
